@@ -88,6 +88,7 @@ def main():
     ap.add_argument('--json', default=None)
     ap.add_argument('--keep', action='store_true', help='the changes are behaviour-preserving: expect silence from every property')
     a = ap.parse_args()
+    a.dir = os.path.abspath(a.dir)
     ids = sorted(d for d in os.listdir(a.dir) if os.path.isfile(os.path.join(a.dir, d, 'patch.diff')))
     if a.only:
         keys = a.only.split(',')
@@ -107,7 +108,11 @@ def main():
     if a.keep:
         fa = sum(1 for r in results if r['status'].startswith('FALSE-ALARM'))
         e2 = sum(1 for r in results if r['status'].startswith('exit2'))
-        print('preserving: %d changes, %d silent, %d exit 2 (fail-closed), %d FALSE ALARMS' % (len(results), len(results) - fa - e2, e2, fa))
+        ok = sum(1 for r in results if r['status'] == 'silent')
+        broken = len(results) - fa - e2 - ok   # patch-failed / parse-error: NOT evaluated, never counted as silent
+        print('preserving: %d changes, %d silent, %d exit 2 (fail-closed), %d FALSE ALARMS, %d not evaluated (patch/parse failure)' % (len(results), ok, e2, fa, broken))
+        if broken:
+            sys.exit(3)
     else:
         print('seeded: %d changes, %d caught by their property, %d not' % (len(results), len(results) - missed, missed))
     if a.json:
